@@ -1103,6 +1103,170 @@ fn sort_reference(seed: u64) -> serde_json::Value {
     json!({"found": false, "routine": "sort_reference", "tried": tried})
 }
 
+// C07: inline_operations in the three modes vs. direct evaluation of Call / Iterate nodes: general, associative (non-commutative), empty and
+// one-bit state bodies, vector lengths across the sqrt-trick / segment-tree switch; bodies that draw randomness get one Random node per copy
+fn inline_equiv(seed: u64) -> serde_json::Value {
+    use ciphercore_base::graphs::{create_context, Context, GraphAnnotation, Operation};
+    use ciphercore_base::inline::inline_ops::{inline_operations, DepthOptimizationLevel, InlineConfig, InlineMode};
+    let modes = || vec![("Simple", InlineMode::Simple), ("DepthOptimized(Default)", InlineMode::DepthOptimized(DepthOptimizationLevel::Default)), ("DepthOptimized(Extreme)", InlineMode::DepthOptimized(DepthOptimizationLevel::Extreme))];
+    let mut rng = Rng(seed | 1);
+    let mut tried = 0u64;
+    // kind: 0 general state (i64 scalar), 1 associative 2x2 matrix product, 2 empty state, 3 one-bit state (bit[3]), 4 associative with empty per-step output
+    let build = |kind: u32, len: u64| -> Result<(Context, Vec<Type>)> {
+        let c = create_context()?;
+        let (st, it): (Type, Type) = match kind { 0 => (scalar_type(INT64), scalar_type(INT64)), 1 | 4 => (array_type(vec![2, 2], UINT64), array_type(vec![2, 2], UINT64)),
+            2 => (tuple_type(vec![]), scalar_type(INT64)), _ => (array_type(vec![3], BIT), array_type(vec![3], BIT)) };
+        let body = c.create_graph()?;
+        { let s = body.input(st.clone())?; let x = body.input(it.clone())?;
+          let (ns, out) = match kind {
+              0 => { let three = body.constant(scalar_type(INT64), Value::from_scalar(3, INT64)?)?; let ns = s.multiply(three)?.add(x.clone())?; (ns.clone(), ns.subtract(x.multiply(x.clone())?)?) }
+              1 => { let ns = s.matmul(x)?; (ns.clone(), ns) }
+              4 => { let ns = s.matmul(x)?; (ns, body.create_tuple(vec![])?) }
+              2 => (s, x.multiply(x.clone())?),
+              _ => { let ns = s.multiply(x.clone())?; (ns.clone(), ns.add(x)?) } };
+          body.create_tuple(vec![ns, out])?.set_as_output()?;
+          if kind == 1 || kind == 4 { body.add_annotation(GraphAnnotation::AssociativeOperation)?; }
+          if kind == 3 { body.add_annotation(GraphAnnotation::OneBitState)?; }
+          body.finalize()?; }
+        let main = c.create_graph()?;
+        let in_types = if kind == 2 { vec![vector_type(len, it.clone())] } else { vec![st.clone(), vector_type(len, it.clone())] };
+        { let s0 = if kind == 2 { main.create_tuple(vec![])? } else { main.input(st.clone())? };
+          let v = main.input(vector_type(len, it.clone()))?;
+          main.iterate(body, s0, v)?.set_as_output()?; main.finalize()?; }
+        c.set_main_graph(main)?; c.finalize()?;
+        Ok((c, in_types))
+    };
+    let rand_val = |t: &Type, rng: &mut Rng| -> Value {
+        fn go(t: &Type, rng: &mut Rng) -> Value { match t {
+            Type::Vector(n, e) => Value::from_vector((0..*n).map(|_| go(e, rng)).collect()),
+            Type::Tuple(v) => Value::from_vector(v.iter().map(|e| go(e, rng)).collect()),
+            _ => { let st = t.get_scalar_type(); let n: u64 = if t.is_scalar() { 1 } else { t.get_shape().iter().product() }; let v: Vec<u64> = (0..n).map(|_| if st == BIT { rng.next() & 1 } else { rng.next() % 5 }).collect();
+                if t.is_scalar() { Value::from_scalar(v[0], st).unwrap() } else { Value::from_flattened_array(&v, st).unwrap() } } } }
+        go(t, rng) };
+    for kind in 0..5u32 {
+        for len in [0u64, 1, 2, 3, 5, 7, 15, 16, 17, 24, 33] {
+            let (c, in_types) = match build(kind, len) { Ok(x) => x, Err(e) => return json!({"found": false, "routine": "inline_equiv", "error": format!("kind {} len {}: {}", kind, len, e)}) };
+            for (mname, mode) in modes() {
+                tried += 1;
+                let name = ["general state s' = 3s + x, out = s' - x*x (i64)", "associative, non-commutative: 2x2 u64 matrix product, out = state", "empty state, out = x*x", "one-bit state bit[3]: s' = s AND x, out = s' XOR x", "associative 2x2 matrix product, empty per-step output"][kind as usize];
+                let r = catch_unwind(AssertUnwindSafe(|| -> Result<Option<String>> {
+                    let ic = inline_operations(&c, InlineConfig { default_mode: mode.clone(), ..Default::default() })?.get_context();
+                    if ic.get_graphs().len() != 1 { return Ok(Some(format!("{} graphs left after inlining", ic.get_graphs().len()))); }
+                    for _ in 0..3 {
+                        let inputs: Vec<Value> = in_types.iter().map(|t| rand_val(t, &mut rng)).collect();
+                        let a = random_evaluate(c.get_main_graph()?, inputs.clone())?; let b = random_evaluate(ic.get_main_graph()?, inputs.clone())?;
+                        if a != b { return Ok(Some("the inlined graph computes a different value than direct evaluation of the Iterate node".to_owned())); }
+                    }
+                    Ok(None) }));
+                let obs = match r { Ok(Ok(None)) => continue, Ok(Ok(Some(m))) => m, Ok(Err(e)) => format!("error: {}", e), Err(_) => "panic".to_owned() };
+                return json!({"found": true, "routine": "inline_equiv", "property": "C07", "input": {"iterate_body": name, "vector_length": len, "mode": mname}, "observed": obs,
+                    "what": "inline_operations vs. random_evaluate of the original context (3 random inputs)"});
+            }
+        }
+    }
+    // bodies that draw randomness: `copies` Calls of mask(x) = x + Random, and an Iterate of length `copies` over body (s, x) -> (s, x + Random), with and without state
+    for copies in [1u64, 2, 3, 5] {
+        for variant in 0..3u32 {
+            let t = array_type(vec![4], UINT64);
+            let r = catch_unwind(AssertUnwindSafe(|| -> Result<Context> {
+                let c = create_context()?;
+                let body = c.create_graph()?;
+                let main = c.create_graph()?;
+                if variant == 0 {
+                    { let x = body.input(t.clone())?; let r = body.random(t.clone())?; x.add(r)?.set_as_output()?; body.finalize()?; }
+                    let x = main.input(t.clone())?; let mut outs = vec![]; for _ in 0..copies { outs.push(main.call(body.clone(), vec![x.clone()])?); }
+                    main.create_tuple(outs)?.set_as_output()?; main.finalize()?;
+                } else {
+                    let stt = if variant == 1 { t.clone() } else { tuple_type(vec![]) };
+                    { let s = body.input(stt.clone())?; let x = body.input(t.clone())?; let r = body.random(t.clone())?; body.create_tuple(vec![s, x.add(r)?])?.set_as_output()?; body.finalize()?; }
+                    let x = main.input(t.clone())?; let s0 = if variant == 1 { x.clone() } else { main.create_tuple(vec![])? };
+                    let v = main.create_vector(t.clone(), (0..copies).map(|_| x.clone()).collect())?;
+                    main.iterate(body, s0, v)?.tuple_get(1)?.set_as_output()?; main.finalize()?;
+                }
+                c.set_main_graph(main)?; c.finalize()?; Ok(c) }));
+            let c = match r { Ok(Ok(c)) => c, _ => return json!({"found": false, "routine": "inline_equiv", "error": "could not build the random-body context"}) };
+            for (mname, mode) in modes() {
+                tried += 1;
+                let vname = ["Calls of mask(x) = x + Random", "Iterate over body (s, x) -> (s, x + Random), array state", "Iterate over body ((), x) -> ((), x + Random), empty state"][variant as usize];
+                let r = catch_unwind(AssertUnwindSafe(|| -> Result<Option<String>> {
+                    let ic = inline_operations(&c, InlineConfig { default_mode: mode.clone(), ..Default::default() })?.get_context();
+                    let g = ic.get_main_graph()?;
+                    let nr = g.get_nodes().iter().filter(|n| matches!(n.get_operation(), Operation::Random(_))).count() as u64;
+                    if nr != copies { return Ok(Some(format!("{} inlined copies of the body share {} Random node(s)", copies, nr))); }
+                    let x = Value::from_flattened_array(&[1u64, 2, 3, 4], UINT64)?;
+                    let out = random_evaluate(g, vec![x])?.to_vector()?;
+                    for i in 0..out.len() { for j in i + 1..out.len() { if out[i] == out[j] { return Ok(Some(format!("copies {} and {} produce the same masked value: they share their randomness", i, j))); } } }
+                    Ok(None) }));
+                let obs = match r { Ok(Ok(None)) => continue, Ok(Ok(Some(m))) => m, Ok(Err(e)) => format!("error: {}", e), Err(_) => "panic".to_owned() };
+                return json!({"found": true, "routine": "inline_equiv", "property": "C07", "input": {"context": vname, "copies": copies, "mode": mname}, "observed": obs,
+                    "expected": "one Random node per inlined copy (direct evaluation draws fresh randomness each time the body is entered)", "what": "Random nodes of the graph returned by inline_operations, and its evaluation"});
+            }
+        }
+    }
+    json!({"found": false, "routine": "inline_equiv", "tried": tried})
+}
+
+// C10: Sum over axes, CumSum along an axis and PermuteAxes vs. an independent reference on multi-indices (all scalar widths incl. 128 bits)
+fn reduce_ref(seed: u64) -> serde_json::Value {
+    use ciphercore_base::graphs::util::simple_context;
+    let mut rng = Rng(seed | 1);
+    let mut tried = 0u64;
+    let shapes: Vec<Vec<u64>> = vec![vec![5], vec![2, 3], vec![3, 1, 2], vec![2, 3, 4], vec![2, 2, 2, 3]];
+    let unrank = |mut i: u64, sh: &Vec<u64>| -> Vec<u64> { let mut d = vec![0u64; sh.len()]; for k in (0..sh.len()).rev() { d[k] = i % sh[k]; i /= sh[k]; } d };
+    let rank = |d: &Vec<u64>, sh: &Vec<u64>| -> u64 { let mut o = 0u64; for k in 0..sh.len() { o = o * sh[k] + d[k]; } o };
+    for st in [BIT, UINT8, INT32, UINT64, INT128] {
+        let m = st.get_modulus();
+        let reduce = |x: u128| match m { Some(mm) => x % mm, None => x };
+        for sh in &shapes {
+            let n: u64 = sh.iter().product();
+            let a: Vec<u128> = (0..n).map(|_| reduce(((rng.next() as u128) << 64) | rng.next() as u128)).collect();
+            let t = array_type(sh.clone(), st);
+            // every non-empty subset of axes for Sum, every axis for CumSum, two permutations
+            let rk = sh.len();
+            let mut ops: Vec<(String, Box<dyn Fn(&ciphercore_base::graphs::Node) -> Result<ciphercore_base::graphs::Node>>, Vec<u128>)> = vec![];
+            for mask in 1u32..(1 << rk) {
+                let axes: Vec<u64> = (0..rk as u64).filter(|k| mask >> k & 1 == 1).collect();
+                let keep: Vec<usize> = (0..rk).filter(|k| mask >> k & 1 == 0).collect();
+                let rsh: Vec<u64> = keep.iter().map(|k| sh[*k]).collect();
+                let rn: u64 = rsh.iter().product();
+                let mut want = vec![0u128; rn as usize];
+                for i in 0..n { let d = unrank(i, sh); let kd: Vec<u64> = keep.iter().map(|k| d[*k]).collect(); let r = rank(&kd, &rsh) as usize; want[r] = reduce(want[r].wrapping_add(a[i as usize])); }
+                let ax = axes.clone();
+                ops.push((format!("sum(axes={:?})", axes), Box::new(move |x| x.sum(ax.clone())), want));
+            }
+            for axis in 0..rk {
+                let mut want = a.clone();
+                for i in 0..n { let d = unrank(i, sh); if d[axis] > 0 { let mut p = d.clone(); p[axis] -= 1; let j = rank(&p, sh) as usize; want[i as usize] = reduce(want[i as usize].wrapping_add(want[j])); } }
+                ops.push((format!("cum_sum(axis={})", axis), Box::new(move |x| x.cum_sum(axis as u64)), want));
+            }
+            let perms: Vec<Vec<u64>> = vec![(0..rk as u64).rev().collect(), (0..rk as u64).map(|k| (k + 1) % rk as u64).collect()];
+            for perm in perms {
+                let osh: Vec<u64> = perm.iter().map(|p| sh[*p as usize]).collect();
+                let mut want = vec![0u128; n as usize];
+                for i in 0..n { let d = unrank(i, sh); let nd: Vec<u64> = perm.iter().map(|p| d[*p as usize]).collect(); want[rank(&nd, &osh) as usize] = a[i as usize]; }
+                let pp = perm.clone();
+                ops.push((format!("permute_axes({:?})", perm), Box::new(move |x| x.permute_axes(pp.clone())), want));
+            }
+            for (name, build, want) in ops {
+                tried += 1;
+                let r = catch_unwind(AssertUnwindSafe(|| -> Result<Vec<u128>> {
+                    let c = simple_context(|g| { let x = g.input(t.clone())?; build(&x) })?;
+                    let rt = c.get_main_graph()?.get_output_node()?.get_type()?;
+                    let out = random_evaluate(c.get_main_graph()?, vec![Value::from_flattened_array(&a, st)?])?;
+                    Ok(if rt.is_scalar() { vec![out.to_u128(st)?] } else { out.to_flattened_array_u128(rt)? }) }));
+                let got: Vec<u128> = match r { Ok(Ok(x)) => x.into_iter().map(reduce).collect(),
+                    Ok(Err(e)) => return json!({"found": true, "routine": "reduce_ref", "property": "C10", "input": {"op": name, "shape": sh, "scalar_type": format!("{}", st)}, "observed": format!("error: {}", e)}),
+                    Err(_) => return json!({"found": true, "routine": "reduce_ref", "property": "C10", "input": {"op": name, "shape": sh, "scalar_type": format!("{}", st)}, "observed": "panic"}) };
+                if got != want {
+                    return json!({"found": true, "routine": "reduce_ref", "property": "C10", "input": {"op": name, "shape": sh, "scalar_type": format!("{}", st), "a": a.iter().map(|x| x.to_string()).collect::<Vec<_>>()},
+                        "expected": want.iter().map(|x| x.to_string()).collect::<Vec<_>>(), "observed": got.iter().map(|x| x.to_string()).collect::<Vec<_>>(), "what": "SimpleEvaluator vs. a reference working on multi-indices"});
+                }
+            }
+        }
+    }
+    json!({"found": false, "routine": "reduce_ref", "tried": tried})
+}
+
 // C06 / C04: optimize_context keeps the function of the graph, every input node, and never merges or drops-by-merging PRF / Random nodes
 fn optimizer_equiv(seed: u64) -> serde_json::Value {
     use ciphercore_base::evaluators::simple_evaluator::SimpleEvaluator;
@@ -1336,6 +1500,8 @@ fn main() {
         Some("prf_purity") => prf_purity(seed),
         Some("adder_small_widths") => adder_small_widths(seed),
         Some("clip_small_widths") => clip_small_widths(seed),
+        Some("reduce_ref") => reduce_ref(seed),
+        Some("inline_equiv") => inline_equiv(seed),
         Some("sort_reference") => sort_reference(seed),
         Some("prf_counters_compiled") => prf_counters_compiled(seed),
         Some("party_sim_c01") => party_sim::run(seed, "C01"),
